@@ -308,7 +308,8 @@ def scanner_filter_ok(m, lb, prefix):
     if len(bool_params) != 1:
         return False
     fp = bool_params[0]
-    closures = [b for b in m.prog.user_bodies() if b.parent == lb.id]
+    # the filter may be a closure handed to an iterator adaptor, or sit in a loop of the scanner itself
+    closures = [b for b in m.prog.user_bodies() if b.parent == lb.id] + [lb]
     found = False
     for cb in closures:
         for bi, t in cb.calls():
@@ -335,6 +336,8 @@ def scanner_filter_ok(m, lb, prefix):
                     # the flag argument passed by the closure must be the scanner's bool parameter (captured)
                     flag_from_param = False
                     for r in origins(cb, t['args'][0]):
+                        if cb is lb and r[0] == 'param' and r[1] == fp:
+                            flag_from_param = True
                         if r[0] == 'capture':
                             site = m.prog.closure_sites().get(cb.id)
                             if site:
